@@ -21,6 +21,9 @@ use super::HydratedCacheEntry;
 #[non_exhaustive]
 pub(super) struct ThirdPartyCrateCache {
     pub(super) cache_workspace_packages: bool,
+    /// The source hash each path dependency had when we looked it up in the cache,
+    /// i.e. before its docs were (re)generated.
+    hash_at_lookup: std::sync::Arc<std::sync::Mutex<std::collections::HashMap<String, Option<String>>>>,
 }
 
 impl ThirdPartyCrateCache {
@@ -35,6 +38,7 @@ impl ThirdPartyCrateCache {
         let _ = package_graph.feature_graph();
         Ok(Self {
             cache_workspace_packages,
+            hash_at_lookup: Default::default(),
         })
     }
 
@@ -57,6 +61,7 @@ impl ThirdPartyCrateCache {
             connection: &rusqlite::Connection,
             cache_workspace_packages: bool,
             package_graph: &PackageGraph,
+            hash_at_lookup: &std::sync::Mutex<std::collections::HashMap<String, Option<String>>>,
         ) -> Result<Option<HydratedCacheEntry<A>>, anyhow::Error> {
             let Some(cache_key) = ThirdPartyCrateCacheKey::build(
                 package_graph,
@@ -66,6 +71,12 @@ impl ThirdPartyCrateCache {
             ) else {
                 return Ok(None);
             };
+            if let Ok(mut seen) = hash_at_lookup.lock() {
+                seen.insert(
+                    package_metadata.id().repr().to_owned(),
+                    cache_key.crate_hash.clone(),
+                );
+            }
             tracing::Span::current().record("cache_key", tracing::field::debug(&cache_key));
             // Retrieve from rustdoc's output from cache, if available.
             let mut stmt = connection.prepare_cached(
@@ -154,6 +165,7 @@ impl ThirdPartyCrateCache {
             connection,
             self.cache_workspace_packages,
             package_graph,
+            &self.hash_at_lookup,
         );
         match &outcome {
             Ok(Some(_)) => {
@@ -174,12 +186,27 @@ impl ThirdPartyCrateCache {
         cargo_fingerprint: &'a str,
         package_graph: &PackageGraph,
     ) -> Option<ThirdPartyCrateCacheKey<'a>> {
-        ThirdPartyCrateCacheKey::build(
+        let key = ThirdPartyCrateCacheKey::build(
             package_graph,
             package_metadata,
             cargo_fingerprint,
             self.cache_workspace_packages,
-        )
+        )?;
+        // The docs we are about to store were generated after the lookup. If the sources have
+        // changed in the meantime (an editor saved a file while we were running), we can't tell
+        // which version the docs describe: don't cache them under either hash.
+        if let Ok(seen) = self.hash_at_lookup.lock()
+            && let Some(at_lookup) = seen.get(package_metadata.id().repr())
+            && at_lookup != &key.crate_hash
+        {
+            tracing::warn!(
+                crate.id = %package_metadata.id(),
+                "The sources of this crate changed while its documentation was being generated. \
+                 I won't cache its JSON documentation to avoid serving stale data."
+            );
+            return None;
+        }
+        Some(key)
     }
 
     /// Store the JSON documentation generated by `rustdoc` in the cache.
